@@ -13,7 +13,7 @@ SITE_DOMAINS = {
 }
 NEUTRAL = ["a.com", "example.org", "l.a.com", "netflix.com", "chat.me", "fox.com", "telegram.com", "instagramxcom.fr", "xfb.me",
            "facebook.evil.com"]
-HOSTFORMS = ["asis", "upper", "sub", "deep", "glued", "foreign-tail", "l-prefix"]
+HOSTFORMS = ["asis", "upper", "sub", "deep", "glued", "foreign-tail", "l-prefix", "num-labels", "num-label"]
 USERINFO = ["", "u@", "facebook.com@", "u:t.me@"]
 PATHS = ["", "/", "/abcd", "/index.html", "/a/b", "/x.facebook.com/", "/@t.me", "/twitter.com", "/abcd/", "/home", "/index", "/home/",
          "/homes", "//medialab"]
@@ -72,6 +72,10 @@ def mk_host(domain, form):
         return domain + ".evil.fr"
     if form == "l-prefix":
         return "l." + domain
+    if form == "num-labels":
+        return "1.2.3.4." + domain  # leading labels that look like an address: still a name under the domain
+    if form == "num-label":
+        return "10." + domain
     raise ValueError(form)
 
 
